@@ -91,7 +91,8 @@ class Conf:
     """Sid-side configuration view."""
 
     def __init__(self, module_name: str = "spil_sid_conf"):
-        sc = importlib.import_module(module_name)
+        from mc.ref.confview import load_private
+        sc = load_private(module_name)
         self.sc = sc
         self.raw_templates = dict(sc.sid_templates)
         t = ref_extrapolate(dict(sc.sid_templates), list(sc.to_extrapolate))
